@@ -108,6 +108,7 @@ func TestVerifC16(t *testing.T) {
 		out.emit(in, c16Run(in))
 	}
 	names := [][2]string{{"preconfirmation", "preconfirmation"}, {"preconfirmation", "discovery"},
+		{"TEST", "test"}, {"Test", "test"}, {"discovery", "DISCOVERY"}, {"te\u017ft", "test"}, {"\u212aeep", "keep"},
 		{"", "discovery"}, {"disc", "discovery"}, {"discovery", "disc"}, {"", ""}, {"a.b", "a.b"}}
 	top := uint64(vcount(3, 5))
 	for _, nm := range names {
